@@ -25,7 +25,13 @@ reg('C01', 'propchecks.c01', 'proof', T_C01 + T1, [ASCII, DEPTH, CORR,
     'C01_partial bounds what can escape the model: ParsingError, NotImplementedError, 7 listed (type, site) pairs above the tokenizer (3 are recorded defects '
     'with kernel-checked witnesses, 4 could not be excluded), 14 raise sites of the tokenizer (not analysed for reachability) and the out-of-fuel markers of the '
     'loops covered by fuel only (LR engine, nesting depth 64, tokenizer loops); termination is proved for the loops of _expandwordinternal and parse()'])
-reg('C03', 'propchecks.treespec', 'proof', T1, [ASCII, DEPTH, CORR])
+C03M = 'Bashlex.Props.C03'
+T_C03 = [('Bashlex.C03.' + t, C03M) for t in ['C03_partial', 'C03_partial_single', 'strict_known', 'strict_resolve', 'spans_hooks', 'parserRun_spans', 'wordContract']] + [('Bashlex.LR.run_sound_ord', C03M)]
+reg('C03', 'propchecks.treespec', 'proof', T_C03 + T1, [ASCII, DEPTH, CORR,
+    'C03_partial is CONDITIONAL on the named hypothesis TokSpansAll about the token source (the tokenizer delivers positioned, non-empty, ordered tokens that start inside the input, extends a redirect over its '
+    'here-document only at the frontier, and a nested parser root does not end in two newlines unless followed by ")"); it is not discharged for the real tokenizer (needs cursor monotonicity through _readtoken/'
+    '_readtokenword/makeheredoc) and is what the per-input evaluation covers; everything above the tokenizer (LR engine with an ordered-stack invariant, all ~40 action functions, resolve, word expansion, '
+    'the loop of parse) is proved'])
 reg('C04', 'propchecks.treespec', 'proof', T1, [ASCII, DEPTH, CORR])
 reg('C05', 'propchecks.treespec', 'proof', T1, [ASCII, DEPTH, CORR])
 C12M = 'Bashlex.Props.C12'
@@ -42,7 +48,11 @@ reg('C13', 'propchecks.relprops', 'proof', T_C13 + [('Bashlex.Q.run_prefix', QC)
     'fresh parse of the rest from the restart index; only that index flows between top-level commands. Replacing the rest by B itself when blank lines precede it (BlankSkip: one parser run commutes '
     'with translation past a blank prefix) is an explicit hypothesis of C13_partial_conditional and is decided per input'])
 reg('C14', 'propchecks.relprops', 'proof', T1[:1], [ASCII, DEPTH, CORR])
-reg('C16', 'propchecks.relprops', 'proof', T1[:1], [ASCII, DEPTH, CORR])
+C16M = 'Bashlex.Props.C16'
+T_C16 = [('Bashlex.C16.' + t, C16M) for t in ['C16_partial', 'C16_partial_conditional', 'frameHyp', 'parseI_sound', 'parseI_limit', 'parserRunI_rel', 'rel_action', 'rel_run', 'rel_expandwordWith']]
+reg('C16', 'propchecks.relprops', 'proof', T_C16 + T1[:1], [ASCII, DEPTH, CORR,
+    'C16_partial holds under two decidable per-input conditions: flagsNeutral k s o (no nested parse that the limited run skips changes the parser-state flags it shares with its caller - copy.copy(parserstate) is '
+    'shallow; when it fails the known divergences go the allowed way: the limited parse accepts what the unlimited one rejects) and heredocStable k parts (pruning does not move the restart index of parse())'])
 reg('C17', 'propchecks.relprops', 'proof', [('Bashlex.C13.' + t, C13M) for t in ['parsesingle_eq_head', 'parsesingle_exn_iff', 'parse_exn_of_parsesingle_exn', 'parsesingle_of_parse_exn']] + T6 + [('Bashlex.parse_strict_irrelevant', QC), ('Bashlex.parse_proceed_irrelevant', QC),
       ('Bashlex.parsesingle_strict_irrelevant', QC), ('Bashlex.parsesingle_proceed_irrelevant', QC)], [ASCII, DEPTH, CORR])
 
